@@ -250,7 +250,9 @@ P("C17", module="AJ.Props.C17All", extra=[("AJ.Props.SlotCor", ["C17"]), ("AJ.Pr
   "\\uXXXX and surrogate pairs decode to UTF-8 at any position of a string (and key), whatever serializeJson writes for a byte string deserializeJson reads back identically, "
   "and bytes other than the eight special ones are emitted verbatim. Tables are regenerated from /repo. Exhaustive differential run over all code units, pairs, bytes and byte pairs.",
   level_note="Lean kernel; model validated exhaustively on this domain",
-  suites=lambda tier: [S.UniSuite(cfg=DEF)], exhaustive=True,
+  suites=lambda tier: [S.UniSuite(cfg=DEF),
+                       # escaping is the inverse also in the parts a filter discards: strings ending in escapes (backslash runs, escaped quotes) are skipped exactly
+                       S.FilterSuite(cfg=DEF, n=2500 if tier == "quick" else 100000, memory_clause=False)], exhaustive=True,
   rule="exhaustive enumeration: all 65536 \\uXXXX units x 3 hex-case spellings, surrogate pairs (all 2^20 in the thorough tier), all 256 bytes and all 65536 byte pairs through "
        "serialize+deserialize; non-trivial = non-ASCII unit / pair / content containing an escaped or >=0x80 byte; distinct by code unit(s) or content")
 
